@@ -239,3 +239,45 @@ func VerifC11BinderRejectsTrailingData() {
 	}
 	verif.Reach("C11/binder/decided")
 }
+
+// VerifC11FlattenChildDecoder: arbitrary JSON for the promoted keys of a flattened child that has
+// no decoder of its own: a value the child's field cannot hold makes the whole decode fail; what
+// is accepted is delivered.
+func VerifC11FlattenChildDecoder() {
+	which := verif.Choice("key", 2)
+	v, kind, iv, sv := c11Value("v")
+	var body []byte
+	if which == 0 {
+		body = verif.JObj("id", verif.JStr("a"), "streetName", v, "zipCode", verif.JInt(5))
+	} else {
+		body = verif.JObj("id", verif.JStr("a"), "streetName", verif.JStr("s"), "zipCode", v)
+	}
+	var m FlattenChildMsg
+	err := m.UnmarshalJSON(body)
+	verif.Show("kind", kind)
+	verif.Show("accepted", err == nil)
+	if err != nil {
+		verif.Reach("C11/flatten-child/rejected")
+		return
+	}
+	verif.Assert("C11/flatten-child/parent-field-delivered", m.Id == "a")
+	switch {
+	case kind == "null":
+		if which == 0 {
+			verif.Assert("C11/flatten-child/null-leaves-default", m.GetHome().GetStreetName() == "" && m.GetHome().GetZipCode() == 5)
+		} else {
+			verif.Assert("C11/flatten-child/null-leaves-default", m.GetHome().GetStreetName() == "s" && m.GetHome().GetZipCode() == 0)
+		}
+	case which == 0 && kind == "str":
+		verif.Assert("C11/flatten-child/accepted-value-is-delivered", m.GetHome().GetStreetName() == sv && m.GetHome().GetZipCode() == 5)
+	case which == 1 && kind == "int":
+		verif.Assert("C11/flatten-child/accepted-value-is-delivered", m.GetHome().GetZipCode() == iv && m.GetHome().GetStreetName() == "s")
+	case which == 1 && kind == "str":
+		ref, ok := verif.AtoiRef(sv)
+		verif.Assert("C11/flatten-child/accepted-string-is-a-decimal-integer", ok)
+		verif.Assert("C11/flatten-child/accepted-value-is-delivered", m.GetHome().GetZipCode() == ref)
+	default:
+		verif.Assert("C11/flatten-child/undecodable-value-never-accepted", false)
+	}
+	verif.Reach("C11/flatten-child/accepted")
+}
